@@ -215,6 +215,8 @@ func c03(r *lp.Run) {
 	c03Validators(r, rng)
 	c03BoundMerge(r, rng.Fork(33))
 	c03CountMerge(r, rng.Fork(34))
+	c03EnumMerge(r, rng.Fork(35))
+	c03PropMerge(r, rng.Fork(36))
 
 	scratch := os.Getenv("VERIF_SCRATCH")
 	if scratch == "" {
